@@ -139,10 +139,10 @@ def case_term(r):
     return "(mkPgCase %s\n  %s\n  %s\n  %s)" % (r["baseline_g"], r["actions_g"], r["after_g"], impl)
 
 
-SHARD_HEAD = "From VV.PG Require Import Known CorrGen.\n"
+SHARD_HEAD = "From VV.PG Require Import Known CorrGen Hyp.\n"
 SHARD_TAIL = ("Eval vm_compute in report_from shard_base cases.\n"
               "Eval vm_compute in ksql_mismatches shard_base cases.\n"
-              "Eval vm_compute in hyp_stats cases.\n")
+              "Eval vm_compute in (hyp_stats cases ++ sim_stats cases).\n")
 
 
 def write_shards(d, rows, per):
@@ -306,6 +306,9 @@ def c03_check(tier, seed):
         "tools/pg_sqlparse.py (SQL text -> stmt terms; fails loudly on any shape it does not know)",
         "the PostgreSQL catalog model coq/pg/Model/Engine.v is written from the reference manual: modelled, not verified",
         "str::to_lowercase / trim modelled for ASCII only (engine-profile generators emit ASCII)"]
+    # the simulation proofs use the sorted-map library of the M1 layer (Proofs/BtP.v); dependency layers are
+    # otherwise built models-only
+    vflib.build_layer("m1", targets=["Proofs/BtP.vo"])
     vflib.proof_stage(chk, LAYER, prop)
     res = run_pg(tier, seed)
     if "build_error" in res or "coq_error" in res:
@@ -429,6 +432,7 @@ def c03_replay(path):
 def _part(prop_file, tier, seed):
     """compile Properties/<prop_file>.v of the pg layer; the behavioural tie is this layer's K-sql(pg) run"""
     bad = vflib.grep_forbidden(LAYER)
+    vflib.build_layer("m1", targets=["Proofs/BtP.vo", "Proofs/PrefixP.vo", "Proofs/PrefixApplyP.vo"])
     rc, out = vflib.build_layer(LAYER, targets=vflib.model_targets(LAYER) + ["Properties/%s.vo" % prop_file])
     if rc != 0 or bad:
         return {"ok": False, "obligations": 0, "discharged": 0, "details": {"build": out[-1500:], "forbidden": bad}}
